@@ -1,11 +1,38 @@
 package vm
 
 import (
+	"go/types"
 	"regexp"
 )
 
 func registerMisc(vm *VM) {
 	I := vm.intrinsics
+	I["encoding/json.Marshal"] = func(vm *VM, _ *frame, a []Value) Value {
+		ifc, ok := a[0].(Iface)
+		if !ok || ifc.T == nil {
+			return Tuple{&JSONBlob{}, Iface{}}
+		}
+		return Tuple{&JSONBlob{T: ifc.T, V: copyVal(ifc.V)}, Iface{}}
+	}
+	I["encoding/json.Unmarshal"] = func(vm *VM, _ *frame, a []Value) Value {
+		blob, ok := a[0].(*JSONBlob)
+		if !ok {
+			vmErr("json.Unmarshal of bytes that do not come from json.Marshal (%T)", a[0])
+		}
+		target, ok := a[1].(Iface)
+		if !ok || target.T == nil {
+			vmErr("json.Unmarshal into a nil target")
+		}
+		pt, isPtr := target.T.Underlying().(*types.Pointer)
+		if !isPtr {
+			vmErr("json.Unmarshal into a non-pointer")
+		}
+		if blob.T == nil || !types.Identical(pt.Elem(), blob.T) {
+			vmErr("json.Unmarshal: value-carrying stub needs identical types (have %v, want %v)", blob.T, pt.Elem())
+		}
+		vm.store(target.V.(*Value), copyVal(blob.V))
+		return Iface{}
+	}
 	I["regexp.MustCompile"] = func(vm *VM, _ *frame, a []Value) Value {
 		s, ok := a[0].(string)
 		if !ok {
